@@ -62,7 +62,7 @@ class Opts:
         self.unroll = 1            # iterations of each loop that are executed
         self.stubs = {}            # callee -> fn(ctx, args) -> value
         self.wide_mul = False      # mul as low half of one 2n-bit product term (shared with oracles)
-        self.mul_uf = None         # None | z3 Function(BV64,BV64)->BV64 : symbolic*symbolic products abstracted
+        self.mul_uf = False        # symbolic*symbolic products as MULW<2w>(ext a, ext b), an uninterpreted function
         self.div_spec = False      # sdiv/srem by specification with fresh quotient/remainder
         self.div_uf = None         # None | (sdivF, sremF)
         self.fma = "fused"         # llvm.fmuladd: 'fused' | 'unfused'
@@ -683,22 +683,16 @@ class Exec:
             return a - b
         if op == "mul":
             ca, cb = z3.is_bv_value(simp(a)), z3.is_bv_value(simp(b))
-            if o.mul_uf is not None and not ca and not cb:
-                if "nsw" in fl:
-                    ovf = z3.Function(o.mul_uf.name() + "!ovf", z3.BitVecSort(w), z3.BitVecSort(w), z3.BoolSort())
-                    self.ub("signed-overflow(mul)", ins, ovf(a, b))
-                f = o.mul_uf if w == 64 else z3.Function("%s!%d" % (o.mul_uf.name(), w), z3.BitVecSort(w),
-                                                          z3.BitVecSort(w), z3.BitVecSort(w))
-                return f(a, b)
-            if "nsw" in fl or o.wide_mul:
-                wide = z3.SignExt(w, a) * z3.SignExt(w, b)
-            if "nsw" in fl:
+            sym2 = not ca and not cb
+            if "nsw" in fl or ((o.wide_mul or o.mul_uf) and sym2):
+                wide = self.wide_mul(a, b, True)
                 lo = z3.Extract(w - 1, 0, wide)
+            if "nsw" in fl:
                 self.ub("signed-overflow(mul)", ins, z3.SignExt(w, lo) != wide)
             if "nuw" in fl:
                 self.ub("unsigned-overflow(mul)", ins, umul_ovf(a, b))
-            if o.wide_mul and not ca and not cb:
-                return z3.Extract(w - 1, 0, wide)
+            if (o.wide_mul or o.mul_uf) and sym2:
+                return lo
             return a * b
         if op in ("shl", "lshr", "ashr"):
             self.ub("shift-count>=width", ins, z3.UGE(b, bv(w, w)))
@@ -742,6 +736,18 @@ class Exec:
             return z3.UDiv(a, b) if op == "udiv" else z3.URem(a, b)
         raise Unsupported(op)
 
+    def wide_mul(self, a, b, signed):
+        """the exact 2w-bit product as ONE term: either a real bvmul of the extended operands, or (opts.mul_uf) the
+        uninterpreted function MULW<2w> applied to the simplified extended operands.  Under mul_uf only facts that
+        hold for every function (plus the lemma instances the property module adds, each a valid bvmul identity) are
+        available, so `unsat` carries over to real multiplication."""
+        w = a.size()
+        ext = z3.SignExt if signed else z3.ZeroExt
+        A, Bx = simp(ext(w, a)), simp(ext(w, b))
+        if self.opts.mul_uf and not z3.is_bv_value(A) and not z3.is_bv_value(Bx):
+            return mulw(2 * w)(A, Bx)
+        return A * Bx
+
     def sdivrem_spec(self, a, b, w):
         """truncated division defined by its specification: a = q*b + r, |r| < |b|, sign(r) in {0, sign(a)};
         unique for b != 0 and not (a = MIN and b = -1), so the encoding is sound and complete there."""
@@ -755,8 +761,10 @@ class Exec:
         A, B, Q, R = (z3.SignExt(w, x) for x in (a, b, q, r))
         absb = z3.If(B < 0, -B, B)
         absr = z3.If(R < 0, -R, R)
-        spec = z3.And(A == Q * B + R, absr < absb, z3.Or(R == 0, (R < 0) == (A < 0)))
-        self.res.assumes.append(z3.Implies(b != bv(w, 0), spec))
+        QB = self.wide_mul(q, b, True)
+        spec = z3.And(A == QB + R, absr < absb, z3.Or(R == 0, (R < 0) == (A < 0)))
+        defined = z3.And(b != bv(w, 0), z3.Not(z3.And(a == bv(w, 1 << (w - 1)), b == bv(w, (1 << w) - 1))))
+        self.res.assumes.append(z3.Implies(defined, spec))
         cache[key] = (q, r)
         return q, r
 
@@ -943,11 +951,11 @@ class Exec:
             elif k == "usub":
                 r, ov = a - b, z3.ULT(a, b)
             elif k == "smul":
-                wide = z3.SignExt(w, a) * z3.SignExt(w, b)
+                wide = self.wide_mul(a, b, True)
                 r = z3.Extract(w - 1, 0, wide)
                 ov = z3.SignExt(w, r) != wide
             else:
-                wide = z3.ZeroExt(w, a) * z3.ZeroExt(w, b)
+                wide = self.wide_mul(a, b, False)
                 r = z3.Extract(w - 1, 0, wide)
                 ov = z3.Extract(2 * w - 1, w, wide) != bv(w, 0)
             env[ins.dest] = (r, b2bv(simp(ov)))
@@ -990,6 +998,70 @@ class Exec:
             raise Unsupported("memory intrinsic")
         else:
             raise Unsupported("call to " + name)
+
+
+def mulw(w2):
+    s = z3.BitVecSort(w2)
+    return z3.Function("MULW%d" % w2, s, s, s)
+
+
+def uf_apps(exprs, name_prefix="MULW"):
+    """all distinct applications of the MULW functions inside exprs"""
+    seen, out, stack = set(), [], list(exprs)
+    while stack:
+        e = stack.pop()
+        i = e.get_id()
+        if i in seen:
+            continue
+        seen.add(i)
+        if z3.is_app(e):
+            if e.decl().kind() == z3.Z3_OP_UNINTERPRETED and e.num_args() == 2 and e.decl().name().startswith(name_prefix):
+                out.append(e)
+            stack.extend(e.children())
+    return out
+
+
+def mul_lemmas(app, mul=None):
+    """instances of valid bit-vector multiplication facts for one application MULW<w2>(X, Y) (w2 = 2h):
+    zero / one, unsigned magnitude, signed magnitude and sign rule for operands that are extensions of h-bit values.
+    `mul` = the real product (used by lemma_selftest to validate the templates at a small width)."""
+    X, Y = app.children()
+    w2 = X.size()
+    h = w2 // 2
+    P = app if mul is None else mul
+    c = lambda v: z3.BitVecVal(v, w2)
+    out = [z3.Implies(z3.Or(X == c(0), Y == c(0)), P == c(0)),
+           z3.Implies(X == c(1), P == Y), z3.Implies(Y == c(1), P == X)]
+    for p, q in ((h, h - 1), (h - 1, h), (h - 1, h - 1)):
+        out.append(z3.Implies(z3.And(z3.ULT(X, c(1 << p)), z3.ULT(Y, c(1 << q))), z3.ULT(P, c(1 << (p + q)))))
+    lim = c(1 << (h - 1))
+    small = z3.And(X <= lim, X >= -lim, Y <= lim, Y >= -lim)
+    out.append(z3.Implies(small, z3.And(P <= c(1 << (w2 - 2)), P >= -c(1 << (w2 - 2)))))
+    out.append(z3.Implies(z3.And(small, X > 0, Y > 0), P > 0))
+    out.append(z3.Implies(z3.And(small, X < 0, Y < 0), P > 0))
+    out.append(z3.Implies(z3.And(small, X > 0, Y < 0), P < 0))
+    out.append(z3.Implies(z3.And(small, X < 0, Y > 0), P < 0))
+    # |P| >= |X| when Y != 0 (no wrap for small operands)
+    absv = lambda v: z3.If(v < 0, -v, v)
+    out.append(z3.Implies(z3.And(small, Y != 0), absv(P) >= absv(X)))
+    out.append(z3.Implies(z3.And(small, X != 0), absv(P) >= absv(Y)))
+    return out
+
+
+_LEMMA_OK = None
+
+
+def lemma_selftest():
+    """every lemma template must be a theorem of real bvmul (checked at operand width 2*6 bits)"""
+    global _LEMMA_OK
+    if _LEMMA_OK is None:
+        w2 = 12
+        x, y = z3.BitVecs("lx ly", w2)
+        app = mulw(w2)(x, y)
+        s = z3.Solver()
+        s.add(z3.Not(z3.And(mul_lemmas(app, mul=x * y))))
+        _LEMMA_OK = s.check() == z3.unsat
+    return _LEMMA_OK
 
 
 def sadd_ovf(a, b):
